@@ -1,7 +1,19 @@
 /-
-  Driver op for the connect handshake:
-    hs connect <chmax> <flags> <rxp> <script> <dflt>     script: letters o s w h (ok silent wrong short), `-` = empty
-  output: <outcome> t=<tenths> thr=<0|1> intf=<0|1> sent=<S C I<i> P<n> …> | after disconnect: t=… thr=… intf=…
+  Driver ops for the connect handshake and for sessions:
+    hs connect <chmax> <flags> <rxp> <script> <dflt>
+        script: letters o s w h g n x (ok silent wrong short garbage nack noise), `-` = empty
+        output: <outcome> t=<tenths> thr=<0|1> intf=<0|1> sent=<S C I<i> P<n> …> | after disconnect: t=… thr=… intf=…
+    hs sess <l|h> <chmax> <flags> <rxp> <script> <dflt> <ops> <chunk> [noise=<period ms>:<hex>]
+        ops: letters c s t d p (connect, stream start, stream stop, disconnect, pause 0.3 s) on ONE handler object
+        (l = CommHandler, h = NxscopeHandler); `chunk` (bytes per read of the link) does not matter to the model;
+        a sustained noise source is predicted (as: no effect) only for a device that never answers, noise without a
+        decodable header and a period of at most 5 ms — otherwise `bad-op`
+        output: per call <op>=<result>@<tenths>/<library threads alive>/<interface started>, then sent=<requests>
+
+  The model leaves the time the stream thread's last `stream_data()` poll still needs when it is joined to the
+  adversary (`w ≤ streamPollTimeout`).  The harness runs the real threads under a deterministic scheduler (a new
+  thread first runs when its creator first blocks; at equal deadlines the poll of the stream thread is served before
+  the main thread's wait): `joinWait` computes the `w` of THAT schedule, so that times can be compared exactly.
 -/
 import NxsModel.Driver.Basic
 import NxsModel.Handshake
@@ -9,14 +21,79 @@ namespace Nxs.Driver
 open Nxs Nxs.Handshake
 
 def respArg : Char → Option Resp
-  | 'o' => some .ok | 's' => some .silent | 'w' => some .wrong | 'h' => some .short | _ => none
+  | 'o' => some .ok | 's' => some .silent | 'w' => some .wrong | 'h' => some .short
+  | 'g' => some .garbage | 'n' => some .nack | 'x' => some .noise | _ => none
 
 def reqStr : Req → String
   | .stop => "S" | .cmninfo => "C" | .chinfo c => s!"I{c}" | .padding n => s!"P{n}"
 
+def hsSentStr : Sent → String
+  | .info r => reqStr r | .start => "T" | .enable => "E" | .div => "D"
+
 def outcomeStr : Outcome → String
   | .connected a b c => s!"connected {a} {b} {c}"
   | .raised e => s!"raised {e.name}"
+
+def hsOpArg : Char → Option Op
+  | 'c' => some .connect | 's' => some .streamStart | 't' => some .streamStop | 'd' => some .disconnect
+  | 'p' => some .pause | _ => none
+
+def hsOpChar : Op → String
+  | .connect => "c" | .streamStart => "s" | .streamStop => "t" | .disconnect => "d" | .pause => "p"
+
+def hsOpResStr : OpRes → String
+  | .ok => "ok" | .ack => "ack" | .noack => "noack"
+  | .connected a b c => s!"connected:{a}:{b}:{c}"
+  | .raised e => s!"raised:{e.name}"
+
+/-- can the periodic repetition of the blob contain a decodable serial header (start byte, frame id ≤ 8)? -/
+def hsHasHeader (b : List Nat) : Bool :=
+  let s := if b.length < 8 then b ++ b ++ b else b ++ b.take 8
+  (List.range (s.length - 3)).any fun i => s.getD i 0 == 0x55 && s.getD (i + 3) 255 ≤ 8
+
+/-- scheduler bookkeeping for the stream thread: `pending` = started but not yet run; `pollStart` = when its polling began -/
+structure HsPhase where
+  pending : Bool := false
+  pollStart : Option Nat := none
+
+/-- the main thread blocks at time `t` (the stream thread, if only pending, starts polling now) -/
+def HsPhase.block (ph : HsPhase) (t : Nat) : HsPhase :=
+  if ph.pending then { pending := false, pollStart := some t } else ph
+
+/-- the wait of a join of the stream thread at time `t` -/
+def HsPhase.joinWait (ph : HsPhase) (t : Nat) : Nat :=
+  match ph.pollStart with
+  | none => 0
+  | some t0 => streamPollTimeout - ((t - t0) % streamPollTimeout)
+
+def hsSessLoop (lvl : Level) : Sess → HsPhase → List Op → List String → List String × Sess
+  | x, _, [], acc => (acc.reverse, x)
+  | x, ph, op :: rest, acc =>
+    let awaited := x.started && Info.ackSupported x.dev.flags
+    let t0 := x.st.time
+    -- does this call join the stream thread, and when?
+    let joins := lvl == .high && x.streamStarted && (op == .streamStop || (op == .disconnect && x.connected))
+    let ph1 := if joins then (if awaited then ph.block t0 else ph)
+               else if op == .pause then ph.block t0 else ph
+    let w := if joins then
+               -- time of the join = after the stop request's ACK wait
+               let tj := (ackReq x (.info .stop) Gen.Comm.ackTimeoutStop).2.st.time
+               ph1.joinWait tj
+             else 0
+    let (r, y) := step lvl x op w
+    -- every other call in which the main thread blocks lets a pending stream thread start polling when the call began
+    let blocked : Bool := match op with
+      | .pause => true
+      | .connect => !x.started && (lvl == .low || !x.connected)
+      | .disconnect => if lvl == .low then x.started else x.connected
+      | .streamStart => if lvl == .low then awaited else (!x.streamStarted && awaited)
+      | .streamStop => if lvl == .low then awaited else (x.streamStarted && awaited)
+    let ph2 := if joins && !y.streamThr then ({} : HsPhase)
+               else if blocked then ph1.block t0 else ph1
+    -- a stream thread started by this call is pending from now on
+    let ph3 := if !x.streamThr && y.streamThr then ({ pending := true } : HsPhase) else ph2
+    let line := s!"{hsOpChar op}={hsOpResStr r}@{y.st.time}/{y.threads}/{boolStr y.intf}"
+    hsSessLoop lvl y ph3 rest (line :: acc)
 
 def hsOp : List String → Option String
   | ["connect", chmax, flags, rxp, script, dflt] => do
@@ -26,6 +103,30 @@ def hsOp : List String → Option String
     let r := connect ⟨chmax, flags, rxp⟩ sc d
     let r2 := disconnectAfter r
     pure s!"{outcomeStr r.outcome} t={r.time} thr={boolStr r.recvThreadRunning} intf={boolStr r.intfRunning} sent={" ".intercalate (r.sent.map reqStr)} | t={r2.time} thr={boolStr r2.recvThreadRunning} intf={boolStr r2.intfRunning} bound={bound chmax}"
+  | "sess" :: lvl :: chmax :: flags :: rxp :: script :: dflt :: ops :: _chunk :: extra => do
+    let lvl ← match lvl with | "l" => some Level.low | "h" => some Level.high | _ => none
+    let chmax ← natArg chmax; let flags ← natArg flags; let rxp ← natArg rxp
+    let sc ← if script = "-" then some [] else script.toList.mapM respArg
+    let d ← match dflt.toList with | [c] => respArg c | _ => none
+    let ops ← ops.toList.mapM hsOpArg
+    match extra with
+    | [] => pure ()
+    | [nz] =>
+      -- noise=<ms>:<hex>
+      match nz.splitOn "=" with
+      | ["noise", spec] =>
+        match spec.splitOn ":" with
+        | [ms, hex] =>
+          let ms ← natArg ms
+          let blob ← hexArg hex
+          let quiet := (d :: sc).all fun r => r == Resp.silent || r == Resp.noise
+          let nat : List Nat := blob.map fun (b : Byte) => b.toNat
+          if quiet && ms ≤ 5 && ms ≥ 1 && !hsHasHeader nat then pure () else none
+        | _ => none
+      | _ => none
+    | _ => none
+    let (lines, x) := hsSessLoop lvl (Sess.fresh ⟨chmax, flags, rxp⟩ sc d) {} ops []
+    pure s!"{" ".intercalate lines} sent={" ".intercalate (x.log.map hsSentStr)}"
   | _ => none
 
 end Nxs.Driver
